@@ -4,7 +4,7 @@ from checks import _cl
 
 # the bookkeeping theorems of C04 (incl. the pinned crossing conventions of the regenerated swap helpers) are supporting
 # obligations: pricing, custody and fee accrual all read the active liquidity they maintain
-MODULES = ["SunriseVerif.Props.C06", "SunriseVerif.Props.C06Accrual", "SunriseVerif.Props.C06Refine", "SunriseVerif.Props.C06Refine2", "SunriseVerif.Props.C06Msg", "SunriseVerif.Props.C06Msg2", "SunriseVerif.Props.C06Run", "SunriseVerif.Lemmas.C05Round2Fees", "SunriseVerif.Props.C04"]
+MODULES = ["SunriseVerif.Props.C06", "SunriseVerif.Props.C06Accrual", "SunriseVerif.Props.C06Refine", "SunriseVerif.Props.C06Refine2", "SunriseVerif.Props.C06Msg", "SunriseVerif.Props.C06Msg2", "SunriseVerif.Props.C06Run", "SunriseVerif.Props.C06Run2", "SunriseVerif.Lemmas.C05Round2Fees", "SunriseVerif.Props.C04"]
 
 
 def run(ctx):
